@@ -44,6 +44,8 @@ func init() {
 		"(*github.com/biogo/hts/sam.Reader).Read":       libSamRead,
 		"sort.SearchStrings":                            libSearch,
 		"sort.SliceStable":                              libSortSlice,
+		"sort.Sort":                                     libSortSort,
+		"sort.Stable":                                   libSortSort,
 		"bufio.NewScanner":                              libNewScanner,
 		"(*bufio.Scanner).Buffer":                       libScannerBuffer,
 		"(*bufio.Scanner).Scan":                         libScannerScan,
@@ -607,4 +609,37 @@ func libWriteString(x *Exec, n *ast.CallExpr, recv *Val, recvExpr ast.Expr, st *
 	}
 	c.trusted["io.Writer.Write: returns an arbitrary (n, err); ghost failed(w) set iff err != nil (adversarial writer)"] = true
 	return Val{Tuple: []Val{{T: nres, Ty: tInt}, {T: e, Ty: tError}}}
+}
+
+// sort.Sort / sort.Stable on a named slice type converted at the call site (sort.Sort(byStart(xs))): the slice's elements
+// are permuted; nothing else is written. No ordering facts are assumed (Less is a method of the named type).
+func libSortSort(x *Exec, n *ast.CallExpr, recv *Val, recvExpr ast.Expr, st *State, env *Env) Val {
+	c := x.c
+	s := x.eval(n.Args[0], st, env)
+	if s.Ty == nil {
+		panic(unsupported("sort.Sort on an untyped value"))
+	}
+	if _, ok := s.Ty.Underlying().(*types.Slice); !ok {
+		panic(unsupported("sort.Sort on a non-slice sort.Interface"))
+	}
+	et := x.elemType(s.Ty)
+	es := c.sortOf(et)
+	ref, off, ln, _ := x.sliceParts(s)
+	h := x.heap(st, es)
+	oldArr := c.define("sortin", "(Array Int "+es+")", app("select", h, ref))
+	newArr := c.freshConst("sorted", "(Array Int "+es+")")
+	x.noteWrite(st, ref, n.Pos(), x.ord[n])
+	st.heaps[es] = c.define("H", c.heapName(es), app("store", h, ref, newArr))
+	p := c.freshName("perm")
+	q := c.freshName("iperm")
+	c.declare(p, fmt.Sprintf("(declare-fun %s (Int) Int)", p))
+	c.declare(q, fmt.Sprintf("(declare-fun %s (Int) Int)", q))
+	c.assumes = append(c.assumes,
+		fmt.Sprintf("(forall ((j Int)) (! (=> (and (<= 0 j) (< j %s)) (and (<= 0 (%s j)) (< (%s j) %s) (= (%s (%s j)) j) (= (select %s (+ %s j)) (select %s (+ %s (%s j)))))) :pattern ((%s j))))", ln, p, p, ln, q, p, newArr, off, oldArr, off, p, p),
+		fmt.Sprintf("(forall ((j Int)) (! (=> (and (<= 0 j) (< j %s)) (and (<= 0 (%s j)) (< (%s j) %s) (= (%s (%s j)) j))) :pattern ((%s j))))", ln, q, q, ln, p, q, q),
+		fmt.Sprintf("(forall ((j Int)) (! (=> (or (< j %s) (>= j (+ %s %s))) (= (select %s j) (select %s j))) :pattern ((select %s j))))", off, off, ln, newArr, oldArr, newArr))
+	c.trusted["sort.Sort/sort.Stable on a slice type: permutation of the input only (no ordering assumed)"] = true
+	x.lastPerm = [2]string{p, q}
+	x.lastLess = nil
+	return Val{}
 }
